@@ -1,4 +1,4 @@
-import NeumannModel.Blob.ConcCalls
+import NeumannModel.Blob.ConcSafe
 import NeumannModel.Blob.ReaderLemmas
 /-
   C19 — property theorems for the blob store.  ONLY property statements and their
@@ -474,7 +474,33 @@ theorem concurrent_lost_update_witness :
     refsOf [1] before.1.chunks = 0 ∧ occ [1] before.1.arts = 1 ∧
     after.2.all Th.isDone = true ∧ liveIntact after.1 = false := by decide
 
-/-- PARTIAL (what is missing: collector threads).  For EVERY interleaving of the store steps of any number
+/-- Collectors against deleters are safe.  Any number of deleters of pairwise DIFFERENT artifacts, `gc_cycle`s
+    (any age threshold) and `full_gc`s, freshly started on any reachable store, under EVERY interleaving of their
+    individual `TensorStore` calls and EVERY order the scans may return: an artifact that no deleter is after
+    reads back exactly the same bytes afterwards (so none of its chunks was collected or altered, whatever
+    stale refcounts the deleters wrote back over each other).  With two deleters of the SAME artifact it is
+    false (`concurrent_double_delete_witness`); with a writer next to a collector it is false
+    (`calls_full_gc_vs_writer_witness`, `calls_gc_vs_writer_on_orphan_witness`, `calls_lost_update_witness`). -/
+theorem concurrent_deleters_collectors_safe {K : Type} [DecidableEq K] (h : List Nat → K) (hi : HashInj h)
+    (cfg : Cfg) (ops : List Op) (ths : List (Th K)) (sched : List Nat)
+    (hst : ∀ th ∈ ths, th.isFreshNonWriter = true) (hd : (ths.filterMap target).Nodup)
+    (id : Nat) (hid : ∀ th ∈ ths, target th ≠ some id) :
+    get (runSched h (run h cfg State.init ops) ths sched).1 id = get (run h cfg State.init ops) id :=
+  deleters_collectors_safe h (WF_reach h hi cfg ops).idsNodup (WF_reach h hi cfg ops).refs ths sched hst hd id hid
+
+/-- ... and the same for the call-level runs the scheduled real threads are compared with -/
+theorem calls_deleters_collectors_safe {K : Type} [DecidableEq K] (h : List Nat → K) (hi : HashInj h)
+    (cfg : Cfg) (ops : List Op) (ths : List (Th K)) (sched : List Nat)
+    (hst : ∀ th ∈ ths, th.isFreshNonWriter = true) (hd : (ths.filterMap target).Nodup)
+    (id : Nat) (hid : ∀ th ∈ ths, target th ≠ some id) :
+    get (runCalls h (run h cfg State.init ops) ths sched).1 id = get (run h cfg State.init ops) id := by
+  obtain ⟨sched', e⟩ := runCalls_refines_aux h sched (run h cfg State.init ops) ths
+  rw [← e]
+  exact concurrent_deleters_collectors_safe h hi cfg ops ths sched' hst hd id hid
+
+/-- PARTIAL (what is missing: collector threads next to WRITERS — that part is false of the current code, see
+    the witnesses above; collectors next to deleters only are covered by `concurrent_deleters_collectors_safe`).
+    For EVERY interleaving of the store steps of any number
     of writers and deleters — overlapping content, in any phase (`ThOk`: no `gc`/`full_gc` thread, keys a
     writer already pushed are present; freshly started threads qualify) — every existing artifact keeps all
     its chunks: without a collector no step ever removes a chunk record.  (Refcounts may still be lost,
@@ -540,6 +566,14 @@ theorem concurrent_double_delete_witness :
     get r.1 1 = .ok [1] ∧ get s2 1 = .error .chunkMissing := by decide
 
 /-! non-vacuity -/
+-- two deleters of different artifacts, a gc_cycle and a full_gc on a store with shared chunks and an orphan
+example : let ths : List (Th (List Nat)) := [Th.deleter 0, Th.deleter 1, Th.gc 5, Th.fullGc]
+    (∀ th ∈ ths, th.isFreshNonWriter = true) ∧ (ths.filterMap target).Nodup ∧ (∀ th ∈ ths, target th ≠ some 2) := by decide
+example : let s := run hid cfg1 State.init [.put 1 [1, 2], .put 1 [2, 3], .put 1 [3, 1], .abandon 1 [[9]]]
+    let r := runSched hid s [Th.deleter 0, Th.deleter 1, Th.gc 5, Th.fullGc]
+      [0, 1, 2, 3, 0, 1, 2, 3, 0, 1, 2, 3, 0, 1, 2, 3, 0, 1, 2, 3, 0, 1, 2, 3, 2, 3, 2, 3, 3, 3, 2, 2, 2, 3, 3, 3,
+       2, 3, 2, 3, 2, 3, 2, 3]
+    r.2.all Th.isDone = true ∧ get r.1 2 = .ok [3, 1] ∧ find [9] r.1.chunks = none ∧ r.1.arts.length = 1 := by decide
 -- per-chunk verification: a stored record, and the boundary shift the whole-artifact checksum misses
 example : find [1, 2] (run hid cfg2 State.init [.put 0 [1, 2, 3]]).chunks = some ⟨[1, 2], 2, 1, 0⟩ := by decide
 example : let s := (put hid cfg2 0 State.init [1, 2, 3, 4]).1
